@@ -24,6 +24,36 @@ from lib.framework import Property
 from .util import rat_json, show_rat, exc_name
 
 MODES = {'True': True, 'False': False, 'None': None}
+CALL_LIMIT_S = 15          # one real call (sympy + CBC) normally takes 0.01-0.3 s
+MAX_TIMEOUTS = 3           # after that many, further real calls are not attempted (the check must not hang)
+
+
+class HarnessTimeout(BaseException):
+    """BaseException so that chempy's own `except Exception` cannot swallow it"""
+
+
+class time_limit:
+    timeouts = 0
+
+    def __enter__(self):
+        import signal
+        if time_limit.timeouts >= MAX_TIMEOUTS:
+            raise HarnessTimeout('earlier real calls timed out')
+
+        def on_alarm(signum, frame):
+            raise HarnessTimeout('real call exceeded %d s' % CALL_LIMIT_S)
+        self.old = signal.signal(signal.SIGALRM, on_alarm)
+        signal.alarm(CALL_LIMIT_S)
+        return self
+
+    def __exit__(self, typ, val, tb):
+        import signal, subprocess, os
+        signal.alarm(0)
+        signal.signal(signal.SIGALRM, self.old)
+        if typ is HarnessTimeout:
+            time_limit.timeouts += 1
+            subprocess.run(['pkill', '-9', '-P', str(os.getpid()), '-f', 'cbc'])   # the solver child keeps running otherwise
+        return False
 
 TAGS = [
     ('Substances on both sides', 'both-sides'),
@@ -315,11 +345,16 @@ class C02(Property):
             warnings.simplefilter('ignore')
             with Spy(inj, mode) as spy:
                 try:
-                    r, p = spy.cc.balance_stoichiometry(list(inst['reactants']), list(inst['products']),
-                                                        substances=substances_of(inst), underdetermined=mode,
-                                                        allow_duplicates=dup)
+                    with time_limit():
+                        r, p = spy.cc.balance_stoichiometry(list(inst['reactants']), list(inst['products']),
+                                                            substances=substances_of(inst), underdetermined=mode,
+                                                            allow_duplicates=dup)
                     out['res'] = (r, p)
                     out['line'] = 'ok %s %s' % (show_dict(r), show_dict(p))
+                except HarnessTimeout as e:
+                    out['res'] = None
+                    out['exc'] = TimeoutError(str(e))
+                    out['line'] = 'TimeoutError'
                 except Exception as e:
                     out['res'] = None
                     out['exc'] = e
@@ -360,10 +395,15 @@ class C02(Property):
             with warnings.catch_warnings():
                 warnings.simplefilter('ignore')
                 try:
-                    r, p = cc.balance_stoichiometry(list(inst['reactants']), list(inst['products']), substances=substances_of(inst),
-                                                    underdetermined=MODES[mode_s], allow_duplicates=True)
+                    with time_limit():
+                        r, p = cc.balance_stoichiometry(list(inst['reactants']), list(inst['products']), substances=substances_of(inst),
+                                                        underdetermined=MODES[mode_s], allow_duplicates=True)
                     out['res'] = (r, p)
                     out['line'] = 'ok %s %s' % (json.dumps(list(r.keys()), separators=(',', ':')), json.dumps(list(p.keys()), separators=(',', ':')))
+                except HarnessTimeout as e:
+                    out['res'] = None
+                    out['exc'] = TimeoutError(str(e))
+                    out['line'] = 'TimeoutError'
                 except Exception as e:
                     out['res'] = None
                     out['exc'] = e
@@ -615,7 +655,7 @@ class C02(Property):
             if list(r.keys()) != list(inst['reactants']) or list(p.keys()) != list(inst['products']):
                 return 'key sets differ from the species given: %s -> %s' % (list(r.keys()), list(p.keys()))
         else:
-            if not set(r) <= set(inst['reactants']) or not set(p) <= set(inst['products']) or set(r) & set(p) or not r or not p:
+            if not set(r) <= set(inst['reactants']) or not set(p) <= set(inst['products']) or set(r) & set(p):
                 return 'allow_duplicates: keys %s -> %s not a duplicate-free selection of the species given' % (list(r), list(p))
         vals = [sympy.sympify(v) for v in list(r.values()) + list(p.values())]
         for ck in keys:
